@@ -144,7 +144,11 @@ def fam_rand(tier, seed, n, flavour="plain"):
         tries += 1
         nrules = rnd.choice([3, 4, 5])
         names = ["r%d" % i for i in range(nrules)]
-        if flavour == "utf8":
+        if flavour == "mix":
+            leaves = ['"a"', '"b"', '"é"', '^"A"', "'a'..'é'", "ANY", "SOI", "EOI", "NEWLINE", "LETTER", '"ab"', '" "']
+            alphabet = [97, 98, 233, 32, 10]
+            stack_ops = True
+        elif flavour == "utf8":
             leaves = ['"a"', '"é"', '"中"', '"😀"', '^"É"', '^"e"', "'a'..'é'", "'é'..'中'", "ANY", "NEWLINE", "LETTER", "ALPHABETIC",
                       "EMOJI", "ASCII_ALPHA", '"e\\u{301}"', "UPPERCASE_LETTER", "HAN"]
             alphabet = [97, 233, 20013, 128512, 101, 10]
@@ -154,6 +158,8 @@ def fam_rand(tier, seed, n, flavour="plain"):
             alphabet = cps("abc")
             stack_ops = flavour == "stack"
         lines = []
+        if flavour == "mix" and rnd.random() < 0.6:
+            lines.append(rule("WHITESPACE", rnd.choice(['" "', '" " | NEWLINE']), rnd.choice(["silent", "silent", "normal", "atomic"])))
         if flavour == "ws":
             wk = rnd.choice(list(KINDS))
             ck = rnd.choice(list(KINDS))
@@ -166,7 +172,7 @@ def fam_rand(tier, seed, n, flavour="plain"):
             leaves = ['"a"', '"b"', '"ab"', "ANY", "EOI", '" "', '"#"'] + (["WHITESPACE"] if r < 0.75 else []) + (["COMMENT"] if r > 0.35 else [])
         for i, nm in enumerate(names):
             later = names[i + 1:]  # only forward references: no recursion -> well-founded
-            body = rand_expr(rnd, rnd.choice([1, 2, 2, 3]), later, stack_ops, leaves)
+            body = rand_expr(rnd, rnd.choice([1, 2, 2, 3]) if flavour != "mix" else rnd.choice([2, 3, 3, 4]), later, stack_ops, leaves)
             lines.append(rule(nm, body, rnd.choice(list(KINDS)) if rnd.random() < 0.5 else "normal"))
         text = "\n".join(lines)
         g = dict(id="rd%s%d" % (flavour[0], len(out)), text=text, alphabet=alphabet, maxlen=3 if tier == "quick" else 4)
